@@ -214,7 +214,7 @@ def build_family(tier, checks, kinds=('String', 'Purl'), name_prefix=''):
             if n >= 1:
                 add(T, ty, 'n', [('with_qualifier', h, 'v')])
                 add(T, ty, 'n', FULL + [('with_qualifier', h, 'v')])
-                if n == 2:
+                if n == 2 and T == kinds[0]:
                     add(T, ty, 'n', [('with_qualifier', h, 'v'), ('with_qualifier', ('hole', 'g', 2), 'w')])
         if T != 'Purl':
             for n in lens(m):
